@@ -16,6 +16,7 @@ import (
 	"log"
 	"os"
 	"path/filepath"
+	"runtime"
 	"sort"
 	"strconv"
 	"strings"
@@ -279,7 +280,7 @@ func (e *veEngine) sync() error {
 			for _, k := range veKinds {
 				fmt.Fprintf(&sb, "%s: flag=%v begun=%d gated=%d ended=%d; ", k, f.of(k), e.begun[k], e.gated[k], e.ended[k])
 			}
-			return fmt.Errorf("running flags and parked jobs do not agree after 60s: %s", sb.String())
+			return fmt.Errorf("running flags and parked jobs do not agree after 60s: %s\nblocked goroutines of the service:\n%s", sb.String(), veBlockedGoroutines())
 		}
 		select {
 		case <-e.changed:
@@ -300,7 +301,7 @@ func (e *veEngine) waitIdle(max time.Duration) error {
 			return nil
 		}
 		if time.Now().After(deadline) {
-			return fmt.Errorf("background work did not settle within %v: import=%v tag=%v merge=%v convert=%v", max, f.imp, f.tag, f.merge, f.conv)
+			return fmt.Errorf("background work did not settle within %v: import=%v tag=%v merge=%v convert=%v\nblocked goroutines of the service:\n%s", max, f.imp, f.tag, f.merge, f.conv, veBlockedGoroutines())
 		}
 		select {
 		case <-e.changed:
@@ -928,4 +929,29 @@ func veUseView(v *View, queries []string) (*veViewAnswer, error) {
 		ans.search = append(ans.search, strings.Join(res, ","))
 	}
 	return ans, nil
+}
+
+// veBlockedGoroutines lists the goroutines that are inside the service's job bodies or the converter package
+// (what a job that never finishes is waiting for).
+func veBlockedGoroutines() string {
+	buf := make([]byte, 4<<20)
+	buf = buf[:runtime.Stack(buf, true)]
+	var out []string
+	for _, g := range strings.Split(string(buf), "\n\n") {
+		if !strings.Contains(g, "Job(") && !strings.Contains(g, "/converters.") {
+			continue
+		}
+		if strings.Contains(g, "veBlockedGoroutines") {
+			continue
+		}
+		lines := strings.Split(g, "\n")
+		if len(lines) > 17 {
+			lines = lines[:17]
+		}
+		out = append(out, strings.Join(lines, "\n"))
+		if len(out) >= 12 {
+			break
+		}
+	}
+	return strings.Join(out, "\n--\n")
 }
